@@ -13,7 +13,7 @@ int w_scan(int which, const char *bytes, long *pos, int *outlen);
 static int alpha(char c) {
     /* Part 21 punctuation alphabet + representatives of letters/digits/blank; 0 = end of input (premature EOF at every offset) */
     return c == '#' || c == '\'' || c == '(' || c == ')' || c == '/' || c == '*' || c == ',' || c == ';' || c == '\\' || c == '!' || c == '-' || c == '_' || c == '$' || c == '.' || c == '='
-        || c == 'E' || c == 'N' || c == 'D' || c == 'S' || c == 'C' || c == 'F' || c == 'a' || c == '1' || c == ' ' || c == '\n';
+        || c == (char)0xE9 /* a byte >= 0x80: negative as plain char */ || c == 'E' || c == 'N' || c == 'D' || c == 'S' || c == 'C' || c == 'F' || c == 'a' || c == '1' || c == ' ' || c == '\n';
 }
 void harness(void) {
     int i, len = 0, r, outlen; long pos;
